@@ -5,6 +5,7 @@ import RV.Proofs.IntegrateAdaptive
 import RV.Proofs.IntegrateRestore
 import RV.Proofs.IntegratePause
 import RV.Proofs.IntegrateIAS15
+import RV.Proofs.IntegrateGuard
 import RV.Gen.C08Status
 /-
   C08 — integrate() honours its time, step-size and status contract.
@@ -381,6 +382,21 @@ theorem c08_split_overshoot_reverses :
     A.t = 10 ∧ B.t = 0 ∧ B.dt = -10 ∧ B.stepsDone = 2 ∧ C.t = 10 ∧ C.dt = 10 ∧ C.stepsDone = 1 := by
   decide +kernel
 
+/-! ### the no-progress guard (/repo addb1f3) -/
+
+/-- `integrateG` is `reb_simulation_integrate` with the guard of commit addb1f3: a step that leaves `t` and
+    `dt` unchanged is only recorded, and the error is raised at the top of the next pass of the loop, i.e.
+    only if `reb_check_exit` still says "continue".  For every step function, every schedule of exit
+    conditions, every `tmax`: whenever the guard does not fire (second component `false`), the call is
+    exactly the call without the guard — all theorems of this file about `integrate` carry over — and when
+    it fires it replaces a run that would have gone on (never a SUCCESS or an exit code). -/
+theorem c08_guard_only_adds_errors (step : StepFn K) (env : Nat → Flags) (fuel : Nat) (s : Sim K)
+    (tmax : K) (inf nanGuard : Bool) (o : Outcome K)
+    (h : integrateG nanGuard step env fuel s tmax inf = (o, false)) :
+    integrate step env fuel s tmax inf = o ∧ integrateN nanGuard step env fuel s tmax inf = o := by
+  have h1 := integrateG_silent step env fuel s tmax inf nanGuard o h
+  exact ⟨h1, by rw [integrateN_eq]; exact h1⟩
+
 /-! ### PAUSED / SINGLE_STEP machinery: key presses from another thread -/
 
 /-- Pausing, resuming, single-stepping (arrow-down) and 50-stepping (page-down) any number of times
@@ -580,6 +596,16 @@ example :
     let s0 : Sim ℚ := { demoSim with dt := 1 / 100, exactFinish := 1 }
     let r := (integrate (stepIAS15 (1 / 2) ias15RawFree 8) (fun _ => {}) 50 s0 (-10) false).sim
     r.t = -10 ∧ r.status = 0 ∧ r.stepsDone = 6 ∧ r.dt = -256 / 100 := by
+  decide +kernel
+
+/-- the guard on the ℚ model: a step function that never moves (`t` and `dt` unchanged) is stopped with
+    GENERIC_ERROR after one step; the same function towards `tmax = t` is a no-op with SUCCESS -/
+example :
+    let stuck : StepFn ℚ := fun _ t dt dld => ⟨t, dt, dld⟩
+    let s0 : Sim ℚ := { demoSim with dt := 1, exactFinish := 1 }
+    let r := integrateG false stuck (fun _ => {}) 50 s0 5 false
+    let u := integrateG false stuck (fun _ => {}) 50 s0 0 false
+    r.1.sim.status = 1 ∧ r.1.sim.stepsDone = 1 ∧ r.2 = true ∧ u.1.sim.status = 0 ∧ u.2 = false := by
   decide +kernel
 
 /-- pause at boundary 2, one single step, 50-step key, space twice: same end state as without keys -/
